@@ -45,36 +45,38 @@ func registerSeq(sc seqCheck) {
 		depth := ev.Pick(r, sc.depthQ, sc.depthT)
 		var last *lx.SeqExplorer
 		minDepth := depth
-		for _, cfg := range sc.configs {
-			e := &lx.SeqExplorer{Ledgers: cfg, Alphabet: sc.alphabet, Depth: depth, Restart: sc.restart, Sigs: sc.sigs, Check: sc.check}
-			last = e
-			st, err := e.Run(context.Background(), r)
-			if err != nil {
-				r.EngineError(err.Error())
-				return r.Finish(nil, []string{pgsimAssumption})
+		// depth-major over the configurations: every configuration at depth 1, then every one at
+		// depth 2, ... so that a run cut by its time budget has covered ALL configurations to the
+		// same depth (the mixed feature combinations come last in the list)
+		minDepth = 0
+	depths:
+		for d := 1; d <= depth; d++ {
+			for _, cfg := range sc.configs {
+				e := &lx.SeqExplorer{Ledgers: cfg, Alphabet: sc.alphabet, Depth: d, OnlyDepth: d, Restart: sc.restart, Sigs: sc.sigs, Check: sc.check}
+				last = e
+				st, err := e.Run(context.Background(), r)
+				if err != nil {
+					r.EngineError(err.Error())
+					return r.Finish(nil, []string{pgsimAssumption})
+				}
+				total.States += st.States
+				total.Transitions += st.Transitions
+				total.Paths += st.Paths
+				for k, v := range st.Outcomes {
+					total.Outcomes[k] += v
+				}
+				for k, v := range st.Observations {
+					total.Observations[k] += v
+				}
+				if total.Samples == nil {
+					total.Samples = st.Samples
+				}
+				if !st.Exhaustive || r.Expired() {
+					total.Exhaustive = false
+					break depths
+				}
 			}
-			total.States += st.States
-			total.Transitions += st.Transitions
-			total.Paths += st.Paths
-			if st.DepthDone < minDepth {
-				minDepth = st.DepthDone
-			}
-			if !st.Exhaustive {
-				total.Exhaustive = false
-			}
-			for k, v := range st.Outcomes {
-				total.Outcomes[k] += v
-			}
-			for k, v := range st.Observations {
-				total.Observations[k] += v
-			}
-			if total.Samples == nil {
-				total.Samples = st.Samples
-			}
-			if r.Expired() {
-				total.Exhaustive = false
-				break
-			}
+			minDepth = d
 		}
 		total.DepthDone = minDepth
 		vacuous(r, total, sc.need...)
